@@ -62,7 +62,9 @@ Definition c20_E' : nat := (c20_E - c20_nfin)%nat.
 Definition c20_d3 : mat :=
   if Nat.eqb c20_nfin 0 then c20_d2
   else tab2 (NN (P e)) (WW (P e) c20_E')
-         (fun f j => if Nat.ltb j (NN (P e) + FF (P e)) then get c20_d2 f j else 0).
+         (fun f j => if Nat.ltb j (NN (P e) + FF (P e)) then get c20_d2 f j
+                     else moved_cell (P e) c20_E c20_E' (kept_ids c20_E c20_trs3) c20_d2 f
+                            (j - (NN (P e) + FF (P e)))).
 Definition c20_trs5 : list tracker := recover_ledgers (prec e) (now s1) c20_trs4.
 Definition c20_optv' : vec := opt (P e) (dtot_of e c20_E' c20_d3) c20_capv.
 Definition c20_ords : mat := orders (P e) c20_st2 c20_optv' c20_x c20_capv.
@@ -236,7 +238,8 @@ Lemma c20_d3_nonneg f j : (f < NN (P e))%nat -> 0 <= get (c20_d3 e s1) f j.
 Proof.
   intro Hf. unfold c20_d3. destruct (Nat.eqb _ 0); [apply c20_d2_nonneg; exact Hf|].
   apply c20_get_tab2_nonneg. intros i k Hi Hk.
-  destruct (Nat.ltb _ _); [apply c20_d2_nonneg; exact Hi|apply Qcle_refl].
+  destruct (Nat.ltb _ _); [apply c20_d2_nonneg; exact Hi|].
+  unfold moved_cell. destruct (Nat.ltb _ _); apply c20_d2_nonneg; exact Hi.
 Qed.
 
 Lemma c20_rp_nonneg f j : (f < NN (P e))%nat -> 0 <= get (c20_rp e s1) f j.
